@@ -491,7 +491,91 @@ func classifyLoadErr(s string) string {
 	return "other"
 }
 
+// ---- the assumption behind the raw search: the encoders only copy, replace or insert (Props/C20.lean
+// `word_survives_only_where_it_was`).  For JSON this is proved of the model `Bytes.jsonRender`; for yaml.v3 (whose
+// emitter — style selection, folding, block scalars — is not modelled) it is checked here on the real output.
+
+const yamlOwnChars = "'\"\\ \n|>-+0123456789:?!&*#[]{},%@`abtnvfreN_LPxuUABCDEF"
+const jsonOwnChars = "\"\\unrtbf0123456789acde{}[]:, \nls-.+E"
+
+func yamlOwn(r rune) bool { return strings.ContainsRune(yamlOwnChars, r) }
+func jsonOwn(r rune) bool { return strings.ContainsRune(jsonOwnChars, r) }
+
+// rendOK decides the relation `Enc.Rend own src out`: out is src with every character copied or replaced by a
+// non-empty word of own characters, and own words inserted anywhere.
+func rendOK(src, out []rune, own func(rune) bool) bool {
+	n := len(src)
+	cur := make([]bool, n+1)
+	cur[0] = true
+	for _, y := range out {
+		next := make([]bool, n+1)
+		any := false
+		for i, ok := range cur {
+			if !ok {
+				continue
+			}
+			if i < n && src[i] == y {
+				next[i+1] = true
+				any = true
+			}
+			if own(y) {
+				next[i] = true // insertion (or continuation of a replacement)
+				if i < n {
+					next[i+1] = true // start of a replacement of src[i]
+				}
+				any = true
+			}
+		}
+		if !any {
+			return false
+		}
+		cur = next
+	}
+	return cur[n]
+}
+
+func realEncRend(raw json.RawMessage) any {
+	var a struct {
+		S string `json:"s"`
+	}
+	json.Unmarshal(raw, &a)
+	doc := map[string]any{"secrets": map[string]any{"s": map[string]any{"content": a.S}}}
+	src := []rune("secrets" + "s" + "content" + a.S)
+	var buf bytes.Buffer
+	enc := yaml.NewEncoder(&buf)
+	enc.SetIndent(2)
+	if err := enc.Encode(doc); err != nil {
+		return map[string]any{"err": "yaml"}
+	}
+	jb, err := json.MarshalIndent(doc, "", "  ")
+	if err != nil {
+		return map[string]any{"err": "json"}
+	}
+	return map[string]any{"ok": map[string]any{"yaml": rendOK(src, []rune(buf.String()), yamlOwn), "json": rendOK(src, []rune(string(jb)), jsonOwn)}}
+}
+
 func registerC20Oracle() {
+	core.Register("c20.encRend", &core.CheckDef{
+		Real: realEncRend,
+		Judge: func(args, real, drv json.RawMessage) *core.Verdict {
+			var o struct {
+				Ok *struct {
+					YAML bool `json:"yaml"`
+					JSON bool `json:"json"`
+				} `json:"ok"`
+			}
+			if json.Unmarshal(real, &o) != nil || o.Ok == nil {
+				return core.Skip("not encodable")
+			}
+			if !o.Ok.YAML {
+				return core.Disagree("yaml.v3 output is not a copy/replace/insert rendering of the source over the YAML alphabet")
+			}
+			if !o.Ok.JSON {
+				return core.Disagree("encoding/json output is not a copy/replace/insert rendering of the source over the JSON alphabet")
+			}
+			return nil
+		},
+	})
 	core.Register("c20.leak", &core.CheckDef{
 		Real:    realLeak,
 		Timeout: 30 * time.Second,
